@@ -411,6 +411,9 @@ pub fn run_c16(out: &mut Out, rng: &mut Rng, thorough: bool, only: Option<&str>)
         for p in crate::fam_codec::wrapped_forms(&hex_text_unchecked(v, &good, true)).into_iter().take(if thorough { 100 } else { 18 }) {
             payloads.push(p);
         }
+        for p in crate::fam_codec::confusables(&hex_text_unchecked(v, &crate::fam_codec::ff_image(v, rng), true)).into_iter().take(if thorough { 100 } else { 10 }) {
+            payloads.push(p);
+        }
         // forms derived from the canonical text: doubled prefix, one digit more / less
         {
             let canon = hex_text_unchecked(v, &good, true);
